@@ -36,7 +36,11 @@ static char* arena_base;              /* (arena_base >> 3) % MODW == 0 */
 static int A;                         /* universe size */
 static int propC06;
 /* home slot 0 for every registry size, interleaved with home = last slot: the third address already wraps around */
-static const int residue[MAXA] = { 0, 0, 1264, 0, 1264, 0, 0, 1264, 0, 1264 };
+static const int residueA[MAXA] = { 0, 0, 1264, 0, 1264, 0, 0, 1264, 0, 1264 };
+/* second layout (residues=B): two addresses whose home is the second-to-last slot, then one in the last slot - a cluster that
+** starts before the end of the table and wraps around it */
+static const int residueB[MAXA] = { 1263, 1263, 1264, 0, 1264, 1263, 0, 1264, 0, 1263 };
+static const int* residue = residueA;
 
 enum { K_NONE = 0, K_STD, K_ROOT, K_RAW, K_UNREG /* allocated while the collector was stopped */ };
 
@@ -513,6 +517,8 @@ static int __attribute__((noinline)) apply1(int op) {
 }
 
 /* teardown: what is still allocated must be finalised exactly once, nothing may be left behind */
+static int rootsleft;   /* rootsleft=1: the program ends without deleting its root objects (they are leaked by design: the teardown
+                        ** sweep skips roots) - every other managed object must still be finalised exactly once */
 static void cleanup(void) {
   const char* k0 = lastkind;
   /* in contract: root, raw and stop-window objects are released explicitly before teardown */
@@ -521,6 +527,7 @@ static void cleanup(void) {
   while (progress) {
     progress = 0;
     for (int s = 0; s < NSLOT; s++) {
+      if (rootsleft && S[s].kind == K_ROOT) continue;
       if ((S[s].kind == K_ROOT || S[s].kind == K_RAW || S[s].kind == K_UNREG) && !owned_by_someone(s) && !S[s].deleted) {
         S[s].deleted = 1;
         int k = S[s].kind;
@@ -539,6 +546,10 @@ static void cleanup(void) {
     for (int s = 0; s < NSLOT; s++) {
       if (S[s].kind == K_NONE) continue;
       if (S[s].kind == K_UNREG) continue;   /* reported at the del that failed to finalise it */
+      if (rootsleft && S[s].kind == K_ROOT && !S[s].deleted) {
+        if (S[s].fin || S[s].dealloc) { vf_violation(L("root-finalised-at-teardown"), NULL, "root object #%d, never deleted, was finalised %d / released %d times by the teardown", s, S[s].fin, S[s].dealloc); break; }
+        continue;
+      }
       if (S[s].fin != 1 || S[s].dealloc != 1) {
         char lab[96];
         snprintf(lab, sizeof lab, "left-behind/%s%s", S[s].deleted ? "deleted-by-owner" : "never-deleted", S[s].kind == K_STD ? "" : "/non-managed");
@@ -876,6 +887,8 @@ int main(int argc, char** argv) {
   A = (int)vf_param_i("naddr", 5);
   if (A > MAXA) A = MAXA;
   propC06 = vf_param_is("prop", "C06", "C17");
+  if (vf_param_is("residues", "B", "A")) residue = residueB;
+  rootsleft = (int)vf_param_i("rootsleft", 0);
   dtor_temps = (int)vf_param_i("temps", 0); if (dtor_temps > 4) dtor_temps = 4;
 
   size_t need = 8L * MODW * (20 + NSPARE + 4) + 8L * MODW + 4096;
